@@ -76,6 +76,10 @@ def impl_pair(p, q):
         'b5': guarded(lambda: bearing_degrees(a, b)),
         'b13': guarded(lambda: bearing_degrees(a, b, precision=13)),
         'xyz': guarded(lambda: dist_xyz_meters(Coordinate(*p), Coordinate(*q))),
+        # the same two objects again after other queries have run on them (unit vectors evaluated, bearing taken):
+        # the distance is a function of the two positions, not of what was asked before
+        'h_after': guarded(lambda: (a.xyz, b.xyz, dist_xyz_meters(a, b), haversine_distance_meters(a, b))[-1]),
+        'h_rev_after': guarded(lambda: haversine_distance_meters(b, a)),
     }
 
 
@@ -619,6 +623,10 @@ def main():
         m = {'k': 'pair', 'class': cls, 'p': p, 'q': q, 'obs': {k: v[1] for k, v in obs.items()}}
         for clause, detail in oracle_pair(p, q, obs, rng, stats):
             violations.append(dict(m, clause=clause, detail=detail))
+        if obs['h_after'] != obs['h'] or obs['h_rev_after'] != obs['h_rev']:
+            violations.append(dict(m, clause='dist_is_a_function_of_the_positions',
+                                   detail=f'haversine_distance_meters on the same two objects gives {obs["h"][1]!r} before and '
+                                          f'{obs["h_after"][1]!r} after their unit vectors were evaluated (reversed: {obs["h_rev"][1]!r} / {obs["h_rev_after"][1]!r})'))
         if i < n_pairs_k and all(v[0] == 'Ok' for v in obs.values()):
             addk('hdist', k_hdist(f'k_h_{i}', p, q, obs['h'][1]), m)
             addk('hdist', k_hdist(f'k_hr_{i}', q, p, obs['h_rev'][1]), m)
